@@ -77,9 +77,12 @@ RULE = ("per function a deterministic corpus (small layouts over a data alphabet
 
 
 class Fn:
-    def __init__(self, name, callno, prop, nargs, module, call, encode, oracle, gen, argdesc=""):
+    """one function of a group: call = run the implementation; encode = the call on the wire; expect (before the call) /
+    oracle (after it) = the sharing statement; gen = the case generator"""
+
+    def __init__(self, name, callno, prop, nargs, module, call, encode, expect, oracle, gen, argdesc=""):
         self.name, self.callno, self.prop, self.nargs, self.module = name, callno, prop, nargs, module
-        self.call, self.encode, self.oracle, self.gen, self.argdesc = call, encode, oracle, gen, argdesc
+        self.call, self.encode, self.expect, self.oracle, self.gen, self.argdesc = call, encode, expect, oracle, gen, argdesc
 
 
 FUNCS = {}
@@ -228,7 +231,7 @@ def gen_simple(which, rng, n_random):
                 rows = [[((5 * j + p) % 4) * S, p * S, ALPHA[DSEQ[j]]] for j, p in enumerate(pat)]
             else:
                 rows = [[p * S, ((7 * j + p) % 3) * S, ALPHA[DSEQ[j]]] for j, p in enumerate(pat)]
-            for cf in (UCONF if which != "sum_durations" else UCONF[:4]):
+            for cf in (UCONF[:7] if which != "sum_durations" else UCONF[:4]):
                 yield mk_case(which, [rows], **cf)
     for durs in ([1, 250, 999_999], [S // 3, S // 3, S // 3, 1], [0, 0], [3 * S + 1, -S, 7]):
         rows = [[j * MS, d, ALPHA[DSEQ[j]]] for j, d in enumerate(durs)]
@@ -286,8 +289,8 @@ def gen_filter(which, rng, n_random):
     for idxs in seqs:
         rows = rows_of(idxs)
         for key in ("a", "b"):
-            # every vals list on the short layouts, a rotating pair on the others; aliasing configuration rotates
-            vs = FVALS if len(idxs) <= 1 else [FVALS[(k + 1) % len(FVALS)], FVALS[(k + 4) % len(FVALS)]]
+            # every vals list on the short layouts, a rotating one on the others; aliasing configuration rotates
+            vs = FVALS if len(idxs) <= 1 else [FVALS[(k + 3) % len(FVALS)]]
             for vals in vs:
                 k += 1
                 cf = UCONF[k % len(UCONF)]
@@ -295,7 +298,7 @@ def gen_filter(which, rng, n_random):
     tri = [(A_LX, A_LXX, A_LX), (A_1, A_1F, A_TB), (A_LE, A_LX, A_LE), (A_XX, A_BL, A_XX), (A_LXY, A_SUB, A_LXY)]
     for idxs in tri:
         for key in ("a", "b", "c", "zz"):
-            for vals in FVALS:
+            for vals in FVALS[k % 2::2]:
                 for excl in (False, True):
                     k += 1
                     yield mk_case(which, [rows_of(idxs)], {"key": key, "vals": vals, "exclude": excl}, **UCONF[k % len(UCONF)])
@@ -317,12 +320,14 @@ def gen_merge(which, rng, n_random):
     k = 0
     seqs = [()] + [p for n in (1, 2) for p in itertools.product(MALPHA, repeat=n)]
     for idxs in seqs:
-        for keys in KEYLISTS:
+        # every key list on the short layouts, every other one (rotating) on the pairs; aliasing configuration rotates
+        for keys in (KEYLISTS if len(idxs) <= 1 else KEYLISTS[k % 2::2]):
             k += 1
             yield mk_case(which, [rows_of(idxs)], {"keys": keys}, **UCONF[k % len(UCONF)])
     for idxs in MTRI:
         for keys in KEYLISTS:
-            for cf in UCONF:
+            k += 1
+            for cf in UCONF[k % 2::2]:
                 yield mk_case(which, [rows_of(idxs)], {"keys": keys}, **cf)
     # sub-millisecond timestamps stored unfloored: the new events are built through the constructor (floor)
     for keys in (["a"], ["a", "b"]):
@@ -741,35 +746,33 @@ def _same_objs(r, got, want, what):
     return None
 
 
-def _elements(r, want, leaves):
-    leaves.extend(want)
-    return _new_list(r, r.out) or _same_objs(r, r.out, want, "the returned list")
+# what the result must be is computed BEFORE the call (ex_*: from the caller's objects as they are then; None when
+# the list is malformed) and compared AFTER it (or_*)
 
-
-def or_sort_ts(r, env, leaves):
+def ex_sort_ts(r, env):
     evs = r.built.args[0]
     ts = [us_of_dt(e["timestamp"]) for e in evs]
-    return _elements(r, [evs[i] for i in sorted(range(len(evs)), key=lambda i: (ts[i], i))], leaves)
+    return [evs[i] for i in sorted(range(len(evs)), key=lambda i: (ts[i], i))]
 
 
-def or_sort_dur(r, env, leaves):
+def ex_sort_dur(r, env):
     evs = r.built.args[0]
     ds = [us_of_td(e.duration) for e in evs]
-    return _elements(r, [evs[i] for i in sorted(range(len(evs)), key=lambda i: (-ds[i], i))], leaves)
+    return [evs[i] for i in sorted(range(len(evs)), key=lambda i: (-ds[i], i))]
 
 
-def or_limit(r, env, leaves):
+def ex_limit(r, env):
     evs, count = r.built.args[0], r.case["params"]["count"]
     n = len(evs)
     k = min(count, n) if count >= 0 else max(0, n + count)
-    return _elements(r, [evs[i] for i in range(k)], leaves)
+    return [evs[i] for i in range(k)]
 
 
-def or_concat(r, env, leaves):
-    return _elements(r, [e for a in r.built.args for e in a], leaves)
+def ex_concat(r, env):
+    return [e for a in r.built.args for e in a]
 
 
-def or_filter(r, env, leaves):
+def ex_filter(r, env):
     p = r.case["params"]
     classes = [freeze(v) for v in p["vals"]]
     want = []
@@ -777,7 +780,16 @@ def or_filter(r, env, leaves):
         hit = p["key"] in e.data and any(freeze(e.data[p["key"]]) == c for c in classes)
         if hit != bool(p["exclude"]):
             want.append(e)
-    return _elements(r, want, leaves)
+    return want
+
+
+def or_elements(r, env, leaves):
+    leaves.extend(r.expect)
+    return _new_list(r, r.out) or _same_objs(r, r.out, r.expect, "the returned list")
+
+
+def ex_none(r, env):
+    return ()
 
 
 def or_sum(r, env, leaves):
@@ -806,6 +818,25 @@ def _value(r, got, want, what, where, leaves):
     return None
 
 
+def ex_merge(r, env):
+    """the groups, computed independently: per group its first member (input order) and the (key, value object) pairs
+    its data must consist of"""
+    evs, keys = r.built.args[0], r.case["params"]["keys"]
+    if not keys:
+        return []
+    order, groups = [], []
+    for e in evs:
+        v = tuple((k in e.data, freeze(e.data[k]) if k in e.data else None) for k in keys)
+        if v not in order:
+            order.append(v)
+            wk = []
+            for k in keys:
+                if k in e.data and k not in wk:
+                    wk.append(k)
+            groups.append((e, [(k, e.data[k]) for k in wk]))
+    return groups
+
+
 def or_merge(r, env, leaves):
     evs, keys, out = r.built.args[0], r.case["params"]["keys"], r.out
     if not keys:
@@ -814,37 +845,36 @@ def or_merge(r, env, leaves):
     bad = _new_list(r, out)
     if bad:
         return bad
-    order, firsts = [], []
-    for e in evs:
-        v = tuple((k in e.data, freeze(e.data[k]) if k in e.data else None) for k in keys)
-        if v not in order:
-            order.append(v)
-            firsts.append(e)
-    if len(out) != len(firsts):
-        return "%d result events for %d groups" % (len(out), len(firsts))
+    groups = r.expect
+    if len(out) != len(groups):
+        return "%d result events for %d groups" % (len(out), len(groups))
     seen_e, seen_d = [], []
-    for j, (o, first) in enumerate(zip(out, firsts)):
+    for j, (o, (first, want)) in enumerate(zip(out, groups)):
         bad = _fresh(r, o, env.Event, "result[%d]" % j, seen_e)
         d = dict.get(o, "data") if not bad else None
         bad = bad or _fresh(r, d, dict, "result[%d].data" % j, seen_d)
         if bad:
             return bad
-        wk = []
-        for k in keys:
-            if k in first.data and k not in wk:
-                wk.append(k)
-        if list(d) != wk:
-            return "result[%d].data has the keys %s; the group's first member %s has %s of the merge keys" % (j, list(d), _nm(r, first), wk)
-        for k in wk:
-            bad = _value(r, d[k], first.data[k], "result[%d].data[%r]" % (j, k), "%s.data[%r] of the group's first member" % (_nm(r, first), k), leaves)
+        if list(d) != [k for k, _ in want]:
+            return "result[%d].data has the keys %s; the group's first member %s has %s of the merge keys" % (
+                j, list(d), _nm(r, first), [k for k, _ in want])
+        for k, w in want:
+            bad = _value(r, d[k], w, "result[%d].data[%r]" % (j, k), "%s.data[%r] of the group's first member" % (_nm(r, first), k), leaves)
             if bad:
                 return bad
     return None
 
 
-def or_chunk(r, env, leaves):
-    evs, key, out = r.built.args[0], r.case["params"]["key"], r.out
+def ex_chunk(r, env):
+    """the key-bearing prefix and, per event of it, the value object under the key"""
+    evs, key = r.built.args[0], r.case["params"]["key"]
     prefix = list(itertools.takewhile(lambda e: key in e.data, evs))
+    return prefix, [e.data[key] for e in prefix]
+
+
+def or_chunk(r, env, leaves):
+    key, out = r.case["params"]["key"], r.out
+    prefix, values = r.expect
     bad = _new_list(r, out)
     if bad:
         return bad
@@ -866,10 +896,11 @@ def or_chunk(r, env, leaves):
         for i, s in enumerate(subs):
             if r.tb.loc(s) is None or not isinstance(s, env.Event):
                 return "result[%d].data['subevents'][%d] is %s, not one of the caller's Event objects" % (j, i, _nm(r, s))
+        at = len(cat)
         cat += subs
-        if key not in subs[0].data:
-            return "result[%d]: its first subevent %s does not have the key" % (j, _nm(r, subs[0]))
-        bad = _value(r, d[key], subs[0].data[key], "result[%d].data[%r]" % (j, key), "%s.data[%r] of the run's first event" % (_nm(r, subs[0]), key), leaves)
+        if at >= len(prefix) or subs[0] is not prefix[at]:
+            continue                      # reported below: the concatenation is not the prefix
+        bad = _value(r, d[key], values[at], "result[%d].data[%r]" % (j, key), "%s.data[%r] of the run's first event" % (_nm(r, subs[0]), key), leaves)
         if bad:
             return bad
     leaves.extend(cat)
@@ -878,14 +909,14 @@ def or_chunk(r, env, leaves):
 
 _M, _C, _S, _F = ("aw_transform.merge_events_by_keys", "aw_transform.chunk_events_by_key", "aw_transform.sort_by",
                   "aw_transform.filter_keyvals")
-register_fn(Fn("sort_by_timestamp", 10, "C16", 1, _S, call_1, enc_1, or_sort_ts, gen_simple, "events"))
-register_fn(Fn("sort_by_duration", 11, "C16", 1, _S, call_1, enc_1, or_sort_dur, gen_simple, "events"))
-register_fn(Fn("limit_events", 12, "C16", 1, _S, call_limit, enc_limit, or_limit, gen_limit, "events, count"))
-register_fn(Fn("concat", 13, "C16", 2, _S, call_2, enc_2, or_concat, gen_concat, "events1, events2"))
-register_fn(Fn("filter_keyvals", 14, "C16", 1, _F, call_filter, enc_filter, or_filter, gen_filter, "events, key, vals, exclude"))
-register_fn(Fn("merge_events_by_keys", 15, "C16", 1, _M, call_merge, enc_merge, or_merge, gen_merge, "events, keys"))
-register_fn(Fn("chunk_events_by_key", 16, "C16", 1, _C, call_chunk, enc_chunk, or_chunk, gen_chunk, "events, key, pulsetime"))
-register_fn(Fn("sum_durations", 17, "C16", 1, _S, call_1, enc_1, or_sum, gen_simple, "events"))
+register_fn(Fn("sort_by_timestamp", 10, "C16", 1, _S, call_1, enc_1, ex_sort_ts, or_elements, gen_simple, "events"))
+register_fn(Fn("sort_by_duration", 11, "C16", 1, _S, call_1, enc_1, ex_sort_dur, or_elements, gen_simple, "events"))
+register_fn(Fn("limit_events", 12, "C16", 1, _S, call_limit, enc_limit, ex_limit, or_elements, gen_limit, "events, count"))
+register_fn(Fn("concat", 13, "C16", 2, _S, call_2, enc_2, ex_concat, or_elements, gen_concat, "events1, events2"))
+register_fn(Fn("filter_keyvals", 14, "C16", 1, _F, call_filter, enc_filter, ex_filter, or_elements, gen_filter, "events, key, vals, exclude"))
+register_fn(Fn("merge_events_by_keys", 15, "C16", 1, _M, call_merge, enc_merge, ex_merge, or_merge, gen_merge, "events, keys"))
+register_fn(Fn("chunk_events_by_key", 16, "C16", 1, _C, call_chunk, enc_chunk, ex_chunk, or_chunk, gen_chunk, "events, key, pulsetime"))
+register_fn(Fn("sum_durations", 17, "C16", 1, _S, call_1, enc_1, ex_none, or_sum, gen_simple, "events"))
 WHICH, CALLNO, PROP = _tables()
 SCALAR_RESULT = {"sum_durations"}
 
@@ -909,6 +940,10 @@ def run_case(case, env):
     r.features = alias_features(b, tb, wk)
     r.snap = [render(o, tb) for o in tb.objs]
     r.err, r.out = None, None
+    try:
+        r.expect = fn.expect(r, env)
+    except Exception:  # noqa: BLE001 -- a malformed list: the statement speaks about lists of Events
+        r.expect = None
     try:
         r.out = fn.call(env, fn, b.args, b.params)
     except Exception as ex:  # noqa: BLE001 -- the class is the observation
@@ -940,6 +975,8 @@ def oracle(r, env):
         return
     leaves = []
     try:
+        if r.expect is None:
+            raise ValueError("the expected result could not be computed: not a list of Events, yet the call returned")
         bad = r.fn.oracle(r, env, leaves)
         reached = r.wk.reach(r.out) if is_cell(r.out) else []
         r.shared_out = [tb.names[tb.loc(o)] for o in reached if tb.loc(o) is not None]
@@ -1088,8 +1125,6 @@ def _correspond(r, mo, env):
                 if cell[1] != mine:
                     return "%s: model list label %d (%s), implementation value %r (label %d)" % (
                         path, cell[1], lab.val_name(cell[1]), obj, mine)
-            elif id(obj) not in wk.ev and ks_p == [] and len(obj) > 0:
-                return "%s: the model has an event list here, the implementation the value %r" % (path, obj)
         ks_m = cell[-1]
         if len(ks_m) != len(ks_p):
             return "%s: the model has %d mutable members here, the implementation %d" % (path, len(ks_m), len(ks_p))
@@ -1291,11 +1326,17 @@ def prepare(ck, prop="C16"):
     return ok
 
 
+MAX_REPORTS = 3        # per function and signature / per function (disagreements); the rest is only counted
+
+
 def _report_findings(ck, r, env, done):
     for sig, desc, extra in r.findings:
         rr, fx = r, (sig, desc, extra)
-        if sig not in done:
-            done.add(sig)
+        ck.count("%s:FAILING:%s" % (r.which, sig))
+        done[sig] = done.get(sig, 0) + 1
+        if done[sig] > MAX_REPORTS:
+            continue
+        if done[sig] == 1:
             small = shrink2(r.case, lambda c, sig=sig: any(s == sig for s, _, _ in run_case(c, env).findings))
             r2 = run_case(small, env)
             hit = [f for f in r2.findings if f[0] == sig]
@@ -1323,7 +1364,7 @@ def heap_check(ck, group, have_driver=True, n_random=None):
         fn = FUNCS[w]
         n = n_random if n_random is not None else N_RANDOM["quick" if quick else "thorough"]
         cases = list(fn.gen(w, ck.rng, n))
-        done_sigs, disagreed, samples = set(), 0, 0
+        done_sigs, disagreed, samples = {}, 0, 0
         for lo in range(0, len(cases), 5000):
             recs = [run_case(c, env) for c in cases[lo:lo + 5000]]
             model = None
@@ -1363,6 +1404,8 @@ def heap_check(ck, group, have_driver=True, n_random=None):
                 bad = correspond(r, mo, env)
                 if bad:
                     disagreed += 1
+                    if disagreed > MAX_REPORTS:
+                        continue
                     rr = r
                     if disagreed == 1:
                         try:
